@@ -6,7 +6,7 @@ class C17(Prop):
     id = 'C17'
     theorems = ['C17.lines_eq_pieces', 'C17.no_break', 'C17.splitlines_no_break',
                 'C17.splitlines_join', 'C17.str_spec', 'C17.roundtrip', 'C17.append_concat',
-                'C17.add_concat', 'C17.trim_spec', 'C17.chunk_spec']
+                'C17.add_concat', 'C17.trim_spec', 'C17.chunk_spec', 'C17.cond_chunk_spec']
     proof_modules = ['DznProofs.C17']
     level_rule = ('content trees from one PRNG: depth<=5 over str/int/bool/None/list/dict/TextBlock/'
                   'Comment/other objects, strings over an alphabet with every Python line boundary, '
